@@ -3,13 +3,13 @@ module verifharness
 go 1.23
 
 require (
+	github.com/Jigsaw-Code/outline-sdk v0.0.14
 	github.com/Jigsaw-Code/outline-ss-server v0.0.0
 	github.com/prometheus/client_golang v1.15.0
 	github.com/prometheus/client_model v0.3.0
 )
 
 require (
-	github.com/Jigsaw-Code/outline-sdk v0.0.14 // indirect
 	github.com/beorn7/perks v1.0.1 // indirect
 	github.com/cespare/xxhash/v2 v2.2.0 // indirect
 	github.com/golang/protobuf v1.5.3 // indirect
